@@ -57,6 +57,9 @@ func e2eC09SimSpec(p *refmodel.C09Peer) simPeerSpec {
 	return simPeerSpec{Kind: kind, Addr: p.Addr.String(), AS: p.AS, ID: p.RouterID.String(), V6: true,
 		Extra: func(ap *api.Peer) {
 			ap.Conf.LocalAsn = p.LocalASOverride
+			if p.Negotiated {
+				ap.Conf.PeerAsn = 0 // peer-as not configured: the session type is derived from the peer's OPEN
+			}
 			switch p.RemovePrivate {
 			case "all":
 				ap.Conf.RemovePrivate = api.RemovePrivate_REMOVE_PRIVATE_ALL
@@ -527,6 +530,12 @@ func (sc *e2eC09Scenario) judge(src *e2eC09Peer, s *e2eC09Sent, views map[string
 		}
 		rec.Count("e2e:c09:pair:"+pair, 1)
 		rec.Count("e2e:c09:opt:"+dst.spec.Options(), 1)
+		if dst.spec.Negotiated {
+			rec.Count("e2e:c09:peer-as-unset:target:"+dst.kind().String(), 1)
+		}
+		if src.spec != nil && src.spec.Negotiated {
+			rec.Count("e2e:c09:peer-as-unset:source:"+src.kind().String(), 1)
+		}
 		for _, ru := range exp.Rules {
 			if !strings.HasPrefix(ru, "adv:") {
 				rec.Count("e2e:c09:rule:"+ru, 1)
@@ -539,6 +548,26 @@ func (sc *e2eC09Scenario) judge(src *e2eC09Peer, s *e2eC09Sent, views map[string
 				w[k] = v
 			}
 			return w
+		}
+		if dst.spec.ReplacePeerAS {
+			// one defect class: the peer got exactly what it would get without replace-peer-as
+			agrees := func(e *refmodel.C09Exp) bool {
+				if e.Advertise == refmodel.C09MustNot && held || e.Advertise == refmodel.C09Must && !held {
+					return false
+				}
+				return !held || len(refmodel.C09Check(e, s.in, e2eObs(got, s.key.Family, s.key.Prefix), dst.spec.LocalAddr)) == 0
+			}
+			plain := *dst.spec
+			plain.ReplacePeerAS = false
+			if !agrees(exp) && agrees(refmodel.C09Export(rt, src.spec, &plain, s.in, true)) {
+				class := "peer-as-configured"
+				if dst.spec.Negotiated {
+					class = "peer-as-unset"
+				}
+				rec.Violation("e2e:c09:replace-peer-as-not-applied:"+class, fmt.Sprintf("replace-peer-as is configured for %s (%s, AS %d); for the route of %s it received what it gets without the option (route held: %v)", dst.name, dk, dst.spec.AS, src.name, held),
+					wit(map[string]any{"rx": e2eRxLog(dst.sp, 8)}))
+				continue
+			}
 		}
 		switch exp.Advertise {
 		case refmodel.C09MustNot:
